@@ -256,6 +256,37 @@ func c20Consts(w *World, v ssa.Value, depth int) (out []string, ok bool) {
 			return nil, false
 		}
 		switch a := x.X.(type) {
+		case *ssa.FieldAddr:
+			// a field of a struct built in the module (receiver of a bound method, local value):
+			// the values its literals give that field
+			found := false
+			okAll := true
+			b := &c20Back{w: w, f: c20NewFacts(), seen: map[ssa.Value]bool{}, seenField: map[c20FieldKey]bool{}}
+			b.sources(a.X, 0, func(_ *c20Back, src ssa.Value) {
+				al, isAl := src.(*ssa.Alloc)
+				if !isAl || al.Referrers() == nil {
+					okAll = false
+					return
+				}
+				for _, r := range *al.Referrers() {
+					fa, isFA := r.(*ssa.FieldAddr)
+					if !isFA || fa.Field != a.Field || fa.Referrers() == nil {
+						continue
+					}
+					for _, r2 := range *fa.Referrers() {
+						if st, isSt := r2.(*ssa.Store); isSt && st.Addr == ssa.Value(fa) {
+							sv, ok := c20Consts(w, st.Val, depth+1)
+							if !ok {
+								okAll = false
+								continue
+							}
+							found = true
+							out = append(out, sv...)
+						}
+					}
+				}
+			})
+			return c20Uniq(out), found && okAll
 		case *ssa.Alloc:
 			return c20ConstsOfStores(w, a, depth)
 		case *ssa.FreeVar:
@@ -918,28 +949,313 @@ type c20Facts struct {
 	Types  map[string]bool
 	Calls  map[string]bool
 	Fields map[*types.Var]bool
+	// Tables: local literal tables (arrays of structs filled at constant indices) that were
+	// read at a variable index on the way: rows joined unless a row is selected
+	Tables map[*ssa.Alloc][]int64
 }
 
 func c20NewFacts() *c20Facts {
-	return &c20Facts{Types: map[string]bool{}, Calls: map[string]bool{}, Fields: map[*types.Var]bool{}}
+	return &c20Facts{Types: map[string]bool{}, Calls: map[string]bool{}, Fields: map[*types.Var]bool{}, Tables: map[*ssa.Alloc][]int64{}}
+}
+
+type c20FieldKey struct {
+	addr  ssa.Value
+	field int
 }
 
 type c20Back struct {
-	w      *World
-	f      *c20Facts
-	seen   map[ssa.Value]bool
-	bind   map[*ssa.Parameter]ssa.Value
-	parent *c20Back
-	inline int
-	up     int
+	w         *World
+	f         *c20Facts
+	seen      map[ssa.Value]bool
+	seenField map[c20FieldKey]bool
+	bind      map[*ssa.Parameter]ssa.Value
+	parent    *c20Back
+	inline    int
+	up        int
+	rows      map[*ssa.Alloc]int64 // selected row of a literal table (shared with children)
 }
 
 func c20Collect(w *World, vals ...ssa.Value) *c20Facts {
-	b := &c20Back{w: w, f: c20NewFacts(), seen: map[ssa.Value]bool{}}
+	return c20CollectRows(w, nil, vals...)
+}
+
+// c20CollectRows: like c20Collect with one row selected in each of the given literal tables.
+func c20CollectRows(w *World, rows map[*ssa.Alloc]int64, vals ...ssa.Value) *c20Facts {
+	b := &c20Back{w: w, f: c20NewFacts(), seen: map[ssa.Value]bool{}, seenField: map[c20FieldKey]bool{}, rows: rows}
 	for _, v := range vals {
 		b.visit(v)
 	}
 	return b.f
+}
+
+// c20ArrayAlloc: the local array behind a slice/array expression (slice of a literal).
+func c20ArrayAlloc(v ssa.Value) *ssa.Alloc {
+	for i := 0; i < 4; i++ {
+		switch x := v.(type) {
+		case *ssa.Slice:
+			v = x.X
+		case *ssa.Alloc:
+			if _, ok := x.Type().Underlying().(*types.Pointer).Elem().Underlying().(*types.Array); ok {
+				return x
+			}
+			return nil
+		default:
+			return nil
+		}
+	}
+	return nil
+}
+
+// sources resolves a value to where it comes from through parameters (bound call-site
+// argument, or all callers), captured variables, phis and pointer-typed local variables, and
+// calls fn for each source in the walker whose frame the source belongs to.
+func (b *c20Back) sources(v ssa.Value, depth int, fn func(wb *c20Back, src ssa.Value)) {
+	if v == nil || depth > 8 {
+		return
+	}
+	switch x := v.(type) {
+	case *ssa.Parameter:
+		if arg, ok := b.bind[x]; ok {
+			b.parent.sources(arg, depth+1, fn)
+			return
+		}
+		if b.parent != nil || b.up >= 4 {
+			return
+		}
+		f := x.Parent()
+		idx := -1
+		for i, p := range f.Params {
+			if p == x {
+				idx = i
+			}
+		}
+		b.up++
+		for _, cs := range b.w.callGraph().callers[f] {
+			cc := cs.Instr.Common()
+			args := cc.Args
+			if cc.IsInvoke() {
+				args = append([]ssa.Value{cc.Value}, args...)
+			}
+			if idx >= 0 && idx < len(args) {
+				b.sources(args[idx], depth+1, fn)
+			}
+		}
+		b.up--
+	case *ssa.FreeVar:
+		top := b
+		for top.parent != nil {
+			top = top.parent
+		}
+		for _, bv := range c20Bindings(b.w, x) {
+			top.sources(bv, depth+1, fn)
+		}
+	case *ssa.Phi:
+		for _, e := range x.Edges {
+			b.sources(e, depth+1, fn)
+		}
+	case *ssa.UnOp:
+		// a pointer kept in a local variable: the pointers stored into it
+		if _, isPtr := x.Type().Underlying().(*types.Pointer); isPtr && x.Op == token.MUL {
+			if al, ok := x.X.(*ssa.Alloc); ok && al.Referrers() != nil {
+				n := 0
+				for _, r := range *al.Referrers() {
+					if st, ok := r.(*ssa.Store); ok && st.Addr == ssa.Value(al) {
+						n++
+						b.sources(st.Val, depth+1, fn)
+					}
+				}
+				if n > 0 {
+					return
+				}
+			}
+		}
+		fn(b, v)
+	default:
+		fn(b, v)
+	}
+}
+
+// c20Bindings: the values bound to free variable fv where its closure is built (in the parent
+// function, or anywhere in the module for synthetic bound-method wrappers).
+func c20Bindings(w *World, fv *ssa.FreeVar) []ssa.Value {
+	fn := fv.Parent()
+	idx := -1
+	for i, f := range fn.FreeVars {
+		if f == fv {
+			idx = i
+		}
+	}
+	if idx < 0 {
+		return nil
+	}
+	var out []ssa.Value
+	scan := func(par *ssa.Function) {
+		for _, blk := range par.Blocks {
+			for _, in := range blk.Instrs {
+				if mc, ok := in.(*ssa.MakeClosure); ok && mc.Fn == ssa.Value(fn) && idx < len(mc.Bindings) {
+					out = append(out, mc.Bindings[idx])
+				}
+			}
+		}
+	}
+	if par := fn.Parent(); par != nil {
+		scan(par)
+		return out
+	}
+	for _, f := range w.ModFuncs {
+		scan(f)
+	}
+	return out
+}
+
+// field: the content of field f of the struct ptr points to — only what is stored into that
+// field (directly, through a reload of it, or as part of a whole-struct copy), row by row for
+// literal tables.
+func (b *c20Back) field(ptr ssa.Value, f int) {
+	b.sources(ptr, 0, func(wb *c20Back, src ssa.Value) {
+		k := c20FieldKey{src, f}
+		if wb.seenField[k] {
+			return
+		}
+		wb.seenField[k] = true
+		switch s := src.(type) {
+		case *ssa.Alloc:
+			wb.noteType(s.Type())
+			wb.storesField(s, f)
+		case *ssa.IndexAddr:
+			arr := c20ArrayAlloc(s.X)
+			if arr == nil || arr.Referrers() == nil {
+				wb.visit(s)
+				return
+			}
+			var lit []int64
+			for _, r := range *arr.Referrers() {
+				if ia, ok := r.(*ssa.IndexAddr); ok {
+					if j, ok := constInt(ia.Index); ok {
+						lit = append(lit, j)
+					}
+				}
+			}
+			want, all := int64(-1), true
+			if j, ok := constInt(s.Index); ok {
+				want, all = j, false
+			} else if j, ok := wb.rows[arr]; ok {
+				want, all = j, false
+			} else if len(lit) > 0 {
+				wb.f.Tables[arr] = lit
+			}
+			for _, r := range *arr.Referrers() {
+				ia, ok := r.(*ssa.IndexAddr)
+				if !ok {
+					continue
+				}
+				if j, isK := constInt(ia.Index); isK && !all && j != want {
+					continue
+				}
+				wb.storesField(ia, f)
+			}
+		default:
+			wb.visit(src)
+		}
+	})
+}
+
+// fieldOfValue: field f of a struct VALUE (copied out of memory, returned by a module
+// function, passed as a parameter).
+func (b *c20Back) fieldOfValue(v ssa.Value, f int) {
+	b.sources(v, 0, func(wb *c20Back, src ssa.Value) {
+		switch s := src.(type) {
+		case *ssa.UnOp:
+			if s.Op == token.MUL {
+				wb.field(s.X, f)
+				return
+			}
+			wb.visit(src)
+		case *ssa.Extract:
+			wb.fieldOfResult(s.Tuple, s.Index, f)
+		case *ssa.Call:
+			wb.fieldOfResult(s, 0, f)
+		case *ssa.Const:
+		default:
+			wb.visit(src)
+		}
+	})
+}
+
+func (b *c20Back) fieldOfResult(call ssa.Value, idx, f int) {
+	c, ok := call.(*ssa.Call)
+	if !ok {
+		b.visit(call)
+		return
+	}
+	cc := c.Common()
+	if fn := staticCallee(cc); fn != nil && fn.Blocks != nil && inModule(fn) && b.inline < 2 {
+		b.f.Calls[calleeKey(cc)] = true
+		child := b.child(fn, cc)
+		for _, r := range returnsOf(fn) {
+			res := retResults(r)
+			if idx < len(res) {
+				child.fieldOfValue(res[idx], f)
+			}
+		}
+		return
+	}
+	b.callResult(call, idx)
+}
+
+func (b *c20Back) child(fn *ssa.Function, cc *ssa.CallCommon) *c20Back {
+	child := &c20Back{w: b.w, f: b.f, seen: map[ssa.Value]bool{}, seenField: map[c20FieldKey]bool{}, bind: map[*ssa.Parameter]ssa.Value{}, parent: b, inline: b.inline + 1, up: b.up, rows: b.rows}
+	for i, p := range fn.Params {
+		if i < len(cc.Args) {
+			child.bind[p] = cc.Args[i]
+		}
+	}
+	return child
+}
+
+// storesField: what is stored into field f of the struct at addr.
+func (b *c20Back) storesField(addr ssa.Value, f int) {
+	refs := addr.Referrers()
+	if refs == nil {
+		return
+	}
+	for _, r := range *refs {
+		switch u := r.(type) {
+		case *ssa.Store:
+			if u.Addr == addr {
+				b.fieldOfValue(u.Val, f)
+			}
+		case *ssa.FieldAddr:
+			if u.X != addr || u.Field != f {
+				continue
+			}
+			b.stores(u)
+			// element writes through a reload of the field (x.f[i] = v)
+			if u.Referrers() != nil {
+				for _, r2 := range *u.Referrers() {
+					if ld, ok := r2.(*ssa.UnOp); ok && ld.Op == token.MUL {
+						b.stores(ld)
+					}
+				}
+			}
+		case *ssa.MakeInterface:
+			b.stores(u)
+		case ssa.CallInstruction:
+			cc := u.Common()
+			if fn := staticCallee(cc); fn != nil && fn.Blocks != nil && inModule(fn) {
+				continue
+			}
+			b.f.Calls[calleeKey(cc)] = true
+			if cc.IsInvoke() && cc.Value != addr {
+				b.visit(cc.Value)
+			}
+			for _, a := range cc.Args {
+				if a != addr {
+					b.visit(a)
+				}
+			}
+		}
+	}
 }
 
 func (b *c20Back) noteType(t types.Type) {
@@ -983,12 +1299,12 @@ func (b *c20Back) visit(v ssa.Value) {
 	case *ssa.FieldAddr:
 		st := x.X.Type().Underlying().(*types.Pointer).Elem().Underlying().(*types.Struct)
 		b.f.Fields[st.Field(x.Field)] = true
-		b.visit(x.X)
+		b.field(x.X, x.Field)
 		b.stores(x)
 	case *ssa.Field:
 		st := x.X.Type().Underlying().(*types.Struct)
 		b.f.Fields[st.Field(x.Field)] = true
-		b.visit(x.X)
+		b.fieldOfValue(x.X, x.Field)
 	case *ssa.IndexAddr:
 		b.visit(x.X)
 		b.stores(x)
@@ -1087,12 +1403,7 @@ func (b *c20Back) callResult(call ssa.Value, idx int) {
 	cc := c.Common()
 	b.f.Calls[calleeKey(cc)] = true
 	if f := staticCallee(cc); f != nil && f.Blocks != nil && inModule(f) && b.inline < 2 {
-		child := &c20Back{w: b.w, f: b.f, seen: map[ssa.Value]bool{}, bind: map[*ssa.Parameter]ssa.Value{}, parent: b, inline: b.inline + 1, up: b.up}
-		for i, p := range f.Params {
-			if i < len(cc.Args) {
-				child.bind[p] = cc.Args[i]
-			}
-		}
+		child := b.child(f, cc)
 		for _, r := range returnsOf(f) {
 			res := retResults(r)
 			if idx < len(res) {
@@ -1153,8 +1464,7 @@ func (b *c20Back) followFreeVar(fv *ssa.FreeVar) {
 			idx = i
 		}
 	}
-	par := fn.Parent()
-	if idx < 0 || par == nil {
+	if idx < 0 {
 		return
 	}
 	// the closure is built in the parent: evaluate the binding in the parent's own context
@@ -1162,12 +1472,8 @@ func (b *c20Back) followFreeVar(fv *ssa.FreeVar) {
 	for top.parent != nil {
 		top = top.parent
 	}
-	for _, blk := range par.Blocks {
-		for _, in := range blk.Instrs {
-			if mc, ok := in.(*ssa.MakeClosure); ok && mc.Fn == ssa.Value(fn) && idx < len(mc.Bindings) {
-				top.visit(mc.Bindings[idx])
-			}
-		}
+	for _, bv := range c20Bindings(b.w, fv) {
+		top.visit(bv)
 	}
 }
 
@@ -2538,26 +2844,47 @@ func runC20(c *Ctx) {
 						if storeArg == nil || cidsArg == nil {
 							continue
 						}
-						hf := c20Collect(w, cidsArg)
-						var fields []string
-						for fv := range hf.Fields {
-							if _, isHead := expKind[fv.Name()]; isHead && c20FieldIndex(hst, fv.Name()) >= 0 && hst.Field(c20FieldIndex(hst, fv.Name())) == fv {
-								fields = append(fields, fv.Name())
+						headFields := func(hf *c20Facts) []string {
+							var fields []string
+							for fv := range hf.Fields {
+								if _, isHead := expKind[fv.Name()]; isHead && c20FieldIndex(hst, fv.Name()) >= 0 && hst.Field(c20FieldIndex(hst, fv.Name())) == fv {
+									fields = append(fields, fv.Name())
+								}
+							}
+							sort.Strings(fields)
+							return fields
+						}
+						// when store and list come out of one local literal table read at a variable
+						// index (rows {store_i, heads_i} run by a loop), the call is judged once per row
+						joint := c20Collect(w, cidsArg, storeArg)
+						contexts := []map[*ssa.Alloc]int64{nil}
+						if len(joint.Tables) == 1 {
+							contexts = nil
+							for tbl, rows := range joint.Tables {
+								for _, r := range c20UniqInts(rows) {
+									contexts = append(contexts, map[*ssa.Alloc]int64{tbl: r})
+								}
 							}
 						}
-						if len(fields) == 0 {
-							continue
-						}
-						nSinks++
-						sinkFns[f] = true
-						c.analysed(f)
-						sort.Strings(fields)
-						kinds := c20Kinds(c20Collect(w, storeArg), byField)
-						for _, fld := range fields {
-							resKind[fld] = c20Uniq(append(resKind[fld], kinds...))
-						}
-						if len(fields) > 1 {
-							c.fail("D5", "heads+"+fnName(f)+"->"+fnName(cal), posOf(call), "one store is loaded with several head lists (%s)", strings.Join(fields, ", "))
+						counted := false
+						for _, rowCtx := range contexts {
+							fields := headFields(c20CollectRows(w, rowCtx, cidsArg))
+							if len(fields) == 0 {
+								continue
+							}
+							if !counted {
+								counted = true
+								nSinks++
+								sinkFns[f] = true
+								c.analysed(f)
+							}
+							kinds := c20Kinds(c20CollectRows(w, rowCtx, storeArg), byField)
+							for _, fld := range fields {
+								resKind[fld] = c20Uniq(append(resKind[fld], kinds...))
+							}
+							if len(fields) > 1 {
+								c.fail("D5", "heads+"+fnName(f)+"->"+fnName(cal), posOf(call), "one store is loaded with several head lists (%s)", strings.Join(fields, ", "))
+							}
 						}
 					}
 				}
@@ -2875,6 +3202,19 @@ func c20NamedType(w *World, pkg, name string) *types.Named {
 		}
 	}
 	return nil
+}
+
+func c20UniqInts(in []int64) []int64 {
+	m := map[int64]bool{}
+	var out []int64
+	for _, x := range in {
+		if !m[x] {
+			m[x] = true
+			out = append(out, x)
+		}
+	}
+	sort.Slice(out, func(i, j int) bool { return out[i] < out[j] })
+	return out
 }
 
 func c20FieldIndex(st *types.Struct, name string) int {
